@@ -351,7 +351,7 @@ func pop(name, method string) *Spec {
 		k := b.key("pos", "key", true)
 		n := int64(1)
 		if b.R.Bool() {
-			n = b.integer("tail", "count", false, 1, 2, 3, 5, 100, 1<<31)
+			n = b.integer("tail", "count", false, 1, 2, 3, 5, 100, 1<<31, 0, 0)
 			b.tag("option")
 		}
 		b.expect("%s(%s,%d)", method, q(k), n)
